@@ -617,7 +617,10 @@ def dict_resolver(env):
                 raise SelectorError(f"Could not resolve '{start}'.")
 
             for part in parts:
-                curr = getattr(curr, part)
+                try:
+                    curr = getattr(curr, part)
+                except AttributeError:
+                    raise SelectorError(f"Could not resolve '{x}'.")
 
         return getattr(curr, "__ptera__", curr)
 
